@@ -104,7 +104,7 @@ fn run_case(model: &mut Model, fixed: bool, c: &Case, mut rep: Option<&mut Repor
         };
         let (mpart, dpart) = ans.split_once(" D ").unwrap_or((ans.as_str(), "undecided"));
         if let Some(r) = rep.as_deref_mut() {
-            r.eval();
+            r.evaluations += o.edges.len() as u64 + 1;
             r.count_n("edges_compared", "edges", o.edges.len() as u64);
         }
         // deck (spec)
@@ -215,7 +215,7 @@ fn shrink(model: &mut Model, fixed: bool, c: &Case, d0: &Dis) -> Case {
                 b[i].truncate(1);
                 cands.push(Case { tape: c11::encode(&b), ..cur.clone() });
             }
-            if blocks[i][0] != 0xFF {
+            if !blocks[i].is_empty() && blocks[i][0] != 0xFF {
                 let mut b = blocks.clone();
                 b[i][0] = 0xFF;
                 cands.push(Case { tape: c11::encode(&b), ..cur.clone() });
@@ -366,14 +366,15 @@ fn sys_cases(rng: &mut Rng, n: u64) -> Vec<(SysCase, Vec<u8>, &'static str)> {
         let ix = rng.range(0x5000, 0xE000) as u16;
         let (ops, expect, name): (Vec<SysOp>, Vec<Vec<u8>>, &'static str) = match idx % 4 {
             0 => (
-                // pause in the pilot, resume, both blocks load
-                vec![SysOp::Play, SysOp::Idle(rng.range(3, 40) as usize), SysOp::Stop, SysOp::Idle(rng.range(1, 30) as usize), SysOp::Play, load(&b1, ix), load(&b2, ix)],
+                // pause in the pilot, resume, both blocks load (the ROM needs ~1.3 s of pilot: waiting loop of about a
+                // second plus 256 pulse pairs; a data pilot lasts 2 s, so at most ~20 frames of it may be spent before)
+                vec![SysOp::Play, SysOp::Idle(rng.range(3, 20) as usize), SysOp::Stop, SysOp::Idle(rng.range(1, 30) as usize), SysOp::Play, load(&b1, ix), load(&b2, ix)],
                 vec![b1.clone(), b2.clone()],
                 "stop;play in the pilot",
             ),
             1 => (
                 // repeated stop and repeated play around the pause
-                vec![SysOp::Play, SysOp::Idle(rng.range(3, 40) as usize), SysOp::Stop, SysOp::Idle(5), SysOp::Stop, SysOp::Play, SysOp::Play, load(&b1, ix), load(&b2, ix)],
+                vec![SysOp::Play, SysOp::Idle(rng.range(3, 20) as usize), SysOp::Stop, SysOp::Idle(5), SysOp::Stop, SysOp::Play, SysOp::Play, load(&b1, ix), load(&b2, ix)],
                 vec![b1.clone(), b2.clone()],
                 "stop;stop;play;play",
             ),
@@ -385,7 +386,7 @@ fn sys_cases(rng: &mut Rng, n: u64) -> Vec<(SysCase, Vec<u8>, &'static str)> {
             ),
             _ => (
                 // stop in the middle of block 1's pilot, rewind while stopped, play: clean start
-                vec![SysOp::Play, SysOp::Idle(rng.range(3, 40) as usize), SysOp::Stop, SysOp::Rewind, SysOp::Play, load(&b1, ix), load(&b2, ix)],
+                vec![SysOp::Play, SysOp::Idle(rng.range(3, 20) as usize), SysOp::Stop, SysOp::Rewind, SysOp::Play, load(&b1, ix), load(&b2, ix)],
                 vec![b1.clone(), b2.clone()],
                 "stop;rewind;play",
             ),
